@@ -79,8 +79,14 @@ def gen_array(rnd, kind):
         data = [rnd.choice([round(rnd.uniform(-7, 7), 1), float(rnd.randint(-6, 6))]) for _ in range(n)]
     else:
         data = [rnd.choice([0.0, 1.0, 0.5, round(rnd.uniform(0, 1), 3), round(rnd.uniform(-0.2, 1.2), 2)]) for _ in range(n)]
-    return {"shape": shape, "data": data, "kind": kind, "readonly": rnd.random() < 0.25,
-            "scalar_as": rnd.choice(["py", "np", "0d"]) if not shape else None}
+    a = {"shape": shape, "data": data, "kind": kind, "readonly": rnd.random() < 0.25,
+         "scalar_as": rnd.choice(["py", "np", "0d"]) if not shape else None}
+    if shape and rnd.random() < 0.12:
+        a["as"] = "list"  # the caller passes a (nested) Python list
+    elif shape and kind == "thr" and rnd.random() < 0.1:
+        a["as"] = "int"  # integer-dtype thresholds
+        a["data"] = [float(round(v)) for v in data]
+    return a
 
 
 def gen_cm(rnd):
@@ -91,6 +97,14 @@ def gen_cm(rnd):
     X = rnd.choice([[], [], [3], [2, 2], [0], [2, 1]])
     n = int(np.prod(X + [N, N])) if X + [N, N] else 1
     data = [rnd.choice([0, 0, 1, 2, 5, rnd.randint(0, 40)]) for _ in range(n)]
+    if rnd.random() < 0.2:
+        # built from labels / predictions (and weights): other constructor path, other caller arrays
+        n = rnd.randint(0, 30)
+        classes = [1, 0] if binary else list(range(N))
+        return {"kind": "cm", "binary": binary, "N": N, "X": [], "data": [], "from_labels": True,
+                "labels": [rnd.choice(classes) for _ in range(n)], "predictions": [rnd.choice(classes) for _ in range(n)],
+                "weights": [rnd.choice([1.0, 0.5, 2.0]) for _ in range(n)] if rnd.random() < 0.4 else None,
+                "given_classes": classes if (binary or rnd.random() < 0.7) else None}
     spec = {"kind": "cm", "binary": binary, "N": N, "X": X, "data": data, "float": rnd.random() < 0.3}
     if spec["float"] and rnd.random() < 0.5:
         spec["data"] = [v + rnd.choice([0.0, 0.5, 0.25]) for v in data]  # weighted counts
@@ -129,7 +143,7 @@ def generate(rnd, tier):
             objects.append(o)
             continue
         if r < 0.55:
-            o = c11.gen_source(rnd, rnd.choice(["tiny", "small", "small"]), rnd.random() < 0.3)
+            o = c11.gen_source(rnd, rnd.choice(["tiny", "small", "small"]) if rnd.random() < 0.96 else "huge", rnd.random() < 0.3)
             o["kind"] = "scores"
             o["readonly"] = rnd.random() < 0.2
             o["swaps"] = rnd.choice([0, 0, 0, 1, 2])
@@ -252,6 +266,21 @@ def generate(rnd, tier):
 
 def build_cm(spec, L=None):
     L = L or lib()
+    if spec.get("from_labels"):
+        labels = np.asarray(spec["labels"], dtype=np.int64)
+        preds = np.asarray(spec["predictions"], dtype=np.int64)
+        d = {"labels": labels, "predictions": preds}
+        kw = {}
+        if spec.get("weights") is not None:
+            d["weights"] = kw["weights"] = np.asarray(spec["weights"], dtype=float)
+        classes = spec.get("given_classes")
+        if classes is None:
+            # classes are inferred: need at least two distinct values to be a valid matrix
+            if len(set(spec["labels"]) | set(spec["predictions"])) < 2:
+                classes = list(range(spec["N"]))
+        callers = M._callers(d)
+        o = L.ConfusionMatrix(labels, preds, classes=classes, binary=bool(spec["binary"]), **kw)
+        return o, callers
     N, X = spec["N"], spec["X"]
     m = np.asarray(spec["data"], dtype=float if spec.get("float") else np.int64).reshape(X + [N, N])
     kw = {}
@@ -281,6 +310,10 @@ def build_arg(a):
             return arr
         return v
     arr = np.asarray(a["data"], dtype=float).reshape(a["shape"])
+    if a.get("as") == "list":
+        return arr.tolist()
+    if a.get("as") == "int":
+        arr = arr.astype(np.int64)
     if a.get("readonly"):
         arr.flags.writeable = False
     return arr
@@ -384,7 +417,7 @@ def shape_law(o, op, x, r, L):
     """Returns an error string or None."""
     k = op["op"]
     X = np.shape(x) if x is not None else None
-    scalar_in = x is not None and not isinstance(x, np.ndarray)
+    scalar_in = x is not None and not isinstance(x, (np.ndarray, list))
     if k == "cm":
         if not isinstance(r, L.ConfusionMatrix) or r.matrix.shape != X + (2, 2) or not r.binary:
             return f"cm(shape {X}) returned matrix of shape {getattr(getattr(r, 'matrix', None), 'shape', None)}"
@@ -560,7 +593,7 @@ def execute(scn, ctx):
             # caller-side: the caller writes new values into its own (writable) array; not a library call
             v = args.get(op["x"])
             if isinstance(v, np.ndarray) and v.flags.writeable and v.size:
-                v += op["delta"]
+                v += v.dtype.type(op["delta"]) if v.dtype.kind == "f" else v.dtype.type(round(op["delta"]) or 1)
                 if op.get("rev") and v.ndim == 1:
                     v[:] = v[::-1].copy()
                 arg_fp[op["x"]] = M.fingerprint(v)
